@@ -772,8 +772,10 @@ def _long_cycles(thorough=False):
     out.append(("ring16/customlist", _ring(16, "customlist")))
     out.append(("ring300/dict", _ring(300, "dict")))
     if thorough:
+        # (a ring of 300 custom objects builds and copies fine, but its dump nests 4 JSON levels per object: beyond what the
+        # worker's json.dumps can encode under the default recursion limit -- a harness limit, so 150)
         out.append(("ring300/mixed", _ring(300, "mixed")))
-        out.append(("ring300/custom", _ring(300, "custom")))
+        out.append(("ring150/custom", _ring(150, "custom")))
         out.append(("ring150/listpad", _ring(150, "listpad")))
     # lasso: an acyclic chain of 20 lists leading into a ring of 16
     ring = _ring(16, "list")
@@ -1571,6 +1573,18 @@ def _monitor_probe(case, obs, hit):
                     f"lookup compares the nested mapping again); depth 20 takes 3 s, depth 24 over 45 s")
 
 
+def _unordered_msets(d):
+    """a tree dump with the children of every MultiSetNode sorted: the reference of `userb` is built from a second
+    materialisation of the store, and the iteration order of a set depends on the objects (a NaN hashes by address)"""
+    import json
+    if isinstance(d, list):
+        x = [_unordered_msets(c) for c in d]
+        if x and x[0] == "mset":
+            x[3] = sorted(x[3], key=lambda c: json.dumps(c, sort_keys=True))
+        return x
+    return d
+
+
 def _monitor_userb(run, r, store, hit):
     """A user-defined Builder subclass must convert the custom objects by ITS OWN handlers, whatever other builder classes
     have seen these types before in the process."""
@@ -1580,7 +1594,7 @@ def _monitor_userb(run, r, store, hit):
         hit("user-builder/outcome/" + r["err"],
             f"UserBuilder (own expander/builder for the custom classes): {r['err']}, but BasicBuilder on the same graph with "
             f"the objects replaced by lists gives {want}")
-    elif want == "ok" and r["tree"] != ref:
+    elif want == "ok" and _unordered_msets(r["tree"]) != _unordered_msets(ref):
         hit("user-builder/tree", f"UserBuilder's tree differs from the reference: {r['tree']!r} vs {ref!r}")
 
 
